@@ -136,10 +136,17 @@ def chooseTarget (order : List Ty) : SynM Ty := do
   let r ← randintM 0 (total - 1)
   listGetM order (r.toNat / 100000)
 
-/-- the main loop: `fuel` bounds the number of iterations (the real loop is bounded by the
-failure limit only; the driver passes a fuel no real run exhausts) -/
+/-- the main loop: `fuel` is the number of operations left -- the real loop performs at most
+`failures_limit * len(dna)` of them (the genome is read cyclically, and an operation that succeeds is not a
+failure: without this bound a genome that never assembles a program is read round and round forever;
+repaired by a `fix:` commit after the model had recorded the loop as bounded by the failure limit only).
+When the budget is used up the loop ends like it does at the failure limit: the program on the start
+stack if there is one, else `GeneticEngineError("Stack genome not enough.")` -/
 def loop (g : Grammar) (order : List Ty) (limit : Nat) : Nat → Stacks → Nat → SynM Val
-  | 0, _, _ => throwE (.foreign "fuel")
+  | 0, st, _ =>
+    match getStack (.cls g.spec.start) st with
+    | v :: _ => pure v
+    | [] => throwE .library
   | fuel + 1, st, failures =>
     match getStack (.cls g.spec.start) st with
     | v :: _ => pure v
